@@ -675,9 +675,14 @@ struct Gen {
     now: u64,
     deadlines: Vec<u64>,
     ncalls: u64,
+    /// an op the generator has decided to emit next (targeted fault placement)
+    forced: Option<Op>,
 }
 
 fn gen_op(rng: &mut Rng, cl: &Client, g: &mut Gen, p: &Params) -> Op {
+    if let Some(op) = g.forced.take() {
+        return op;
+    }
     let live = cl.live_calls();
     let woken_calls: Vec<usize> = live.iter().copied().filter(|c| cl.call_woken(*c)).collect();
     let handles = cl.handle_ids();
@@ -741,6 +746,10 @@ fn gen_op(rng: &mut Rng, cl: &Client, g: &mut Gen, p: &Params) -> Op {
                 2 => Some("guard-drop-exit"),
                 _ => None,
             };
+            // a write fault aimed at the cancellation this drop is about to queue
+            if p.faults && rng.chance(1, 4) {
+                g.forced = Some(Op::Fault("send"));
+            }
             Op::DropCall(c, site)
         }
         3 => Op::PollDispatch,
@@ -779,7 +788,7 @@ fn gen_op(rng: &mut Rng, cl: &Client, g: &mut Gen, p: &Params) -> Op {
         }
         7 => Op::SetReady(rng.chance(1, 2)),
         8 => Op::SetFlush(rng.chance(1, 2)),
-        9 => Op::Fault(*rng.pick(&["ready", "send", "flush", "close", "next"])),
+        9 => Op::Fault(*rng.pick(&["ready", "send", "send", "send", "flush", "close", "next"])),
         10 => {
             if rng.chance(1, 2) {
                 Op::InjectErr
@@ -807,7 +816,7 @@ pub fn run_script(out: &mut Out, idx: u64, p: &Params, rng: &mut Rng, script: Op
     simt::take_log();
     let _sub = install_subscriber(p.sub);
     let mut cl = Client::new("d0", p.max, p.buf, p.cap, p.coupled);
-    let mut g = Gen { sent_ids: vec![], answered: vec![], now: 0, deadlines: vec![], ncalls: 0 };
+    let mut g = Gen { sent_ids: vec![], answered: vec![], now: 0, deadlines: vec![], ncalls: 0, forced: None };
     let mut i = 0usize;
     loop {
         let op = match script {
